@@ -138,3 +138,67 @@ CHECKS["C18"] = {
                     "size is taken as given: logSize/mirroredLogSize (signature-verified published checkpoint) are checked separately",
                     "levels >= 7 (tile span overflows int64 and the division panics) are outside the claim: such tiles need a tree of 2^56 entries"],
 }
+
+# ---------------------------------------------------------------- C13
+CTLOG = {"pkg": "filippo.io/sunlight/internal/ctlog", "pkgname": "ctlog"}
+c13_cases = []
+# Upload: (depth, existing, n, faults, immutable)
+for sh in [(0, 0, 3, 0, 0), (0, 1, 3, 0, 0), (1, 0, 1, 0, 1), (2, 0, 3, 0, 1), (2, 0, 0, 0, 1), (0, 1, 0, 0, 0)]:
+    c13_cases.append(case("upload %s" % (sh,), "VerifC13Upload", sh, ["uploaded"], Q))
+for sh in [(0, 0, 2, 1, 0), (0, 1, 2, 1, 0), (1, 0, 1, 1, 1), (2, 0, 1, 1, 1)]:
+    c13_cases.append(case("upload with one I/O fault %s" % (sh,), "VerifC13Upload", sh, ["uploaded", "failed"], Q))
+for sh in [(2, 0, 2, 2, 1), (0, 1, 3, 2, 0), (1, 1, 2, 2, 0)]:
+    c13_cases.append(case("upload with two I/O faults %s" % (sh,), "VerifC13Upload", sh, ["uploaded", "failed"], T))
+# Reupload: (n, m, shortReads)
+for sh in [(0, 0, 0), (1, 1, 0), (3, 3, 1), (3, 2, 1), (2, 3, 0), (0, 1, 0), (1, 0, 0)]:
+    same = sh[0] == sh[1]
+    c13_cases.append(case("immutable re-upload %s" % (sh,), "VerifC13Reupload", sh, (["different"] if sh[0] + sh[1] > 0 else []) + (["identical"] if same else []), Q, unwind=64, unwind_is_violation=True,
+                          confirm_native={"func": "VerifC13NativeReupload", "args": [sh[0], sh[1]], "timeout": 20}))
+for sh in [(6, 6, 1), (5, 6, 1), (40, 40, 0)]:
+    same = sh[0] == sh[1]
+    c13_cases.append(case("immutable re-upload %s" % (sh,), "VerifC13Reupload", sh, ["different"] + (["identical"] if same else []), T, unwind=128, unwind_is_violation=True))
+for n in (1, 3):
+    for op in (0, 1, 2):
+        c13_cases.append(case("confinement key len %d op %d" % (n, op), "VerifC13Confine", [n, op], ["refused", "touched"], Q,
+                              confirm_native={"func": "VerifC13NativeDotKey", "args": [], "timeout": 20}))
+for n in (4, 5):
+    for op in (0, 1, 2):
+        c13_cases.append(case("confinement key len %d op %d" % (n, op), "VerifC13Confine", [n, op], ["refused", "touched"], T))
+c13_cases.append(case("discard mutable", "VerifC13Discard", [0], ["discarded"], Q))
+c13_cases.append(case("discard immutable", "VerifC13Discard", [1], ["discarded"], Q))
+
+CHECKS["C13"] = {
+    "level": "model_checking",
+    "jobs": [dict(CTLOG, harness=["internal_ctlog/zz_verif_c13.go"], native=False, cases=c13_cases)],
+    "bounds": {
+        "quick": "one upload into a directory tree with 0-2 missing levels, object lengths 0-3 (symbolic bytes), with and without a previous object, fault budget 0-1 "
+                 "(any single os call fails, writes may be partial); crash point and concurrent reader = every system call of the upload; re-upload lengths 0-3 with short reads; "
+                 "keys of 1-3 symbolic characters over {'.','/','\\','a',NUL}",
+        "thorough": "fault budget 2, re-upload lengths up to 40, keys up to 5 characters",
+    },
+    "assumptions": ["the model file system of DESIGN.md §3.3 replaces package os and the kernel (fsync makes file bytes / directory entries durable; rename is atomic in the volatile view; "
+                    "power loss keeps the durable state plus any subset of un-synced effects; Read may be short and returns (0,nil) for an empty buffer)",
+                    "objects larger than the bounds (multi-megabyte) are outside the claim; the 16384-byte chunking of compareFile is exercised only through short reads",
+                    "immutable inode flag: modelled as a boolean that blocks rename-over and remove"],
+}
+
+# ---------------------------------------------------------------- manifest texts
+NOT_APPLICABLE = {}
+MANIFEST_TEXT = {
+    "C10": {
+        "text": "bounded symbolic execution of the real codec functions (readTileLeaf, AppendTileLeaf, MerkleTreeLeaf, Marshal/ParseExtensions, TilePath/ParseTilePath and the cryptobyte/tlog/strconv code below them) over fully symbolic byte strings, entries and tile coordinates; every path's assertions are discharged by the SMT solver, so the claim holds for every input within the stated length bounds",
+        "note": "bounds: byte strings up to 32 (quick) / 48 (thorough) fully symbolic bytes plus shape-split longer entries; tile index N<1000 (quick) / 10^6 (thorough); decimal formatting of symbolic integers by fmt is modelled by the engine",
+    },
+    "C12": {
+        "text": "bounded symbolic execution of cutEntry, Client.Entry, Client.AllEntries/Entries and CheckInclusion: injectivity of MerkleTreeLeaf on the covered fields, coherence of cutEntry with the parser, and the real torchwood client and tlog proof checking run over an authentic small log whose served tiles are replaced by fully symbolic bytes; hashing is an ideal oracle",
+        "note": "logs of 1-3 entries, tiles up to ~60 symbolic bytes; SHA-256 ideal (collision-free); CheckInclusion with tls.Unmarshal / tls.VerifySignature / the torchwood fetch stubbed by contract; Checkpoint() is covered with the C11 note machinery; HTTP, caches and file readers outside the claim",
+    },
+    "C13": {
+        "text": "bounded symbolic execution of LocalBackend.Upload/Fetch/Discard, compareFile and durable.WriteFile/MkdirAll/Mkdir over a model file system with volatile and durable state: every system call of an upload is a crash point and a reader interleaving point, any call may fail, reads may be short; durability, atomicity, immutability (all lengths including 0, termination by a proven unwinding bound) and confinement for symbolic keys are asserted",
+        "note": "the model file system (fsync / rename / power-loss semantics of DESIGN.md §3.3) replaces package os and the kernel; objects up to 3 bytes quick / 40 thorough, keys up to 3 / 5 symbolic characters; two genuine defects were found, confirmed on the real file system and repaired (known_findings.json)",
+    },
+    "C18": {
+        "text": "bounded symbolic execution of the real cleanDir/overrideImmutable over a model directory whose contents are any subset of a universe of candidate paths, with the published tree size a symbolic 63-bit value: every Remove and every immutable-flag clear is checked against an independent oracle (partial inside a .p directory, full sibling present and non-empty, tile strictly left of the right edge by overflow-free arithmetic), and nothing else changes",
+        "note": "model file system for os.Root/io/fs; levels 0,1,data,names quick, up to level 6 and the mirror layout thorough; size is an input (logSize/mirroredLogSize are checked with the checkpoint machinery); the post-GC restart of the log server is covered with the ctlog world",
+    },
+}
